@@ -36,6 +36,10 @@ PathVals == << LitSeq(<<ELit(StrV(A))>>), LitSeq(<<ELit(StrV(A)), ELit(StrV(B))>
               LitSeq(<<ELit(StrV(A)), ELit(IntV(-1))>>), LitSeq(<<ELit(IntV(1))>>), ECollect(EEmpty) >>
 SetVals == << ELit(IntV(7)), ECollect(ELit(IntV(7))), EPath(B), EPipe(EPath(C), EPath(A)), EBin("ALTERNATIVE", EPipe(EPath(C), EPath(B)), ELit(IntV(0))), EBin("ALTERNATIVE", Idx(EPath(A), 5), ELit(StrV(B))),
              EBin("EQUALS", EPipe(EPath(C), EPath(C)), ELit(Null)), ENul("LENGTH") >>
+Builders == << ENul("KEYS"), EBin("SUBTRACT", ESelf, ECollect(ELit(IntV(2)))), ENul("REVERSE"), ENul("SORT"), EUn("SORT_BY", EPath(A)), ENul("UNIQUE"), EUn("UNIQUE_BY", EPath(A)), EUn("GROUP_BY", EPath(A)),
+              ESlice(ELit(IntV(0)), ELit(IntV(2))), EUn("MAP", ESelf), EUn("FILTER", ELit(BoolV(TRUE))), ECollect(ESplat), EBin("ADD", ESelf, ESelf), EBin("ADD", ESelf, ECollect(ELit(IntV(7)))), EFlatten(1),
+              ENul("TO_ENTRIES"), EUn("WITH_ENTRIES", ESelf), EUn("MAP_VALUES", ESelf), EUn("PICK", ECollect(EUnion(ELit(StrV(A)), ELit(IntV(0))))), EUn("OMIT", ECollect(ELit(StrV(C)))),
+              EBin("MULTIPLY", ESelf, EObject(ELit(StrV(C)), ELit(IntV(1)))), EObject(ELit(StrV(A)), ESelf), EBin("ALTERNATIVE", ESelf, ELit(IntV(0))), EPipe(ESelf, ENul("PIVOT")) >>
 Assigns == FlatMap(LAMBDA p : [i \in DOMAIN Vals1 |-> EAssign(p, Vals1[i])], Paths1)
 ExprSeq ==
      Assigns
@@ -62,6 +66,9 @@ ExprSeq ==
   \o FlatMap(LAMBDA p : [i \in 1..3 |-> EWith(p, EUpdate(ESelf, Upd1[i]))], Paths1)
   \o [i \in DOMAIN Paths1 |-> EWith(Paths1[i], EBin("ADD_ASSIGN", ESelf, ELit(IntV(1))))]
   \o [i \in DOMAIN Paths1 |-> EPipe(EWith(Paths1[i], EAssign(EPath(C), ELit(IntV(7)))), Paths1[i])]
+  \* no aliasing: a value BUILT by an operator shares nothing with the document - assigning into it leaves the document alone
+  \o FlatMap(LAMBDA f : << EAssign(EPipe(EPipe(EPath(A), f), EIndex(0)), ELit(IntV(9))), EAssign(EPipe(f, EIndex(0)), ELit(IntV(9))),
+                            EAssign(EPipe(EPipe(EPath(B), f), EPath(A)), ELit(IntV(9))), EAssign(EPipe(f, EPipe(ESplat, EPath(A))), ELit(IntV(9))) >>, Builders)
   \* setpath / delpaths: the path as a value; the VALUE of setpath reads paths that may be missing (it must not create them)
   \o FlatMap(LAMBDA pv : [i \in DOMAIN SetVals |-> EBin("SET_PATH", pv, SetVals[i])], PathVals)
   \o FlatMap(LAMBDA pv : [i \in DOMAIN SetVals |-> EPipe(EBin("SET_PATH", pv, SetVals[i]), EBin("SET_PATH", pv, ELit(IntV(7))))], PathVals)
